@@ -244,6 +244,18 @@ fn run_program(prog: &[Stmt], slots: &mut Vec<Slot>, cont: &dyn Container, kind:
                 Some(s @ Slot::Guard(_)) => s.release(),
                 _ => push_event("skip".to_string()),
             },
+            Stmt::Expire => {
+                let base = 1000 * (t as u64 + 1) + 500;
+                let gs = cont.expire(std::time::Duration::ZERO, false).expect("set_prog rejects expire for other kinds");
+                let first = base + CANDS.with(|c| c.get());
+                let ids: Vec<(u64, u32)> = gs.iter().enumerate().map(|(i, g)| (first + i as u64, g.key())).collect();
+                CANDS.with(|c| c.set(c.get() + gs.len() as u64));
+                // before the guards are dropped: every drop passes a hook point, i.e. ends the segment
+                push_event(format!("exp={}", crate::container::pairs_str(&ids)));
+                for g in gs {
+                    drop(g);
+                }
+            }
             Stmt::Count => push_event(format!("count={}", cont.count())),
             Stmt::Keys => {
                 let mut ks = cont.keys();
@@ -355,6 +367,9 @@ impl SchedCase {
     /// `false`: not acceptable (thread out of range, already started, statement not available for this kind)
     pub fn set_prog(&mut self, t: usize, prog: &[Stmt]) -> bool {
         if t >= self.nthreads() || self.started.iter().any(|s| *s) || self.hung {
+            return false;
+        }
+        if self.kind != Kind::Lru && prog.iter().any(|s| matches!(s, Stmt::Expire)) {
             return false;
         }
         if self.kind == Kind::Pool {
